@@ -1077,6 +1077,17 @@ async def search(ctx):
             ctx.finding(Finding(PID, sig, what, {
                 "timing_case": {"verif_seed": ctx.seed, "salt": "c03-timing", "index": i}, **extra,
                 "how": "props/c01.py run_timing_case(ctx, index, salt='c03-timing') with ctx of C03"}))
+    # an input that is rewritten while it is being hashed must not be recorded as if the new file had been read
+    import hashrace
+
+    problems, ncase = hashrace.run(ctx.rng("hashrace"), ctx.budget(30, 400))
+    ctx.stats.count("sim:refreshed-while-rewritten-cases", ncase)
+    for pr in problems[:1]:
+        ctx.finding(Finding(PID, "input-change-unnoticed:rewritten-while-hashed",
+                            "an input rewritten right after its bytes were read for hashing is recorded with the digest of "
+                            "the old content and the stat fields of the new one: every later check takes the unchanged short "
+                            "cut, so a step runs and succeeds on content that the recorded hash does not describe",
+                            {**pr, "how": "harness/hashrace.py run()"}))
     ctx.stats.rule = (ctx.stats.rule + " | " if ctx.stats.rule else "") + (
         "builds: one case = one generated project (3-6 steps, amended inputs on about half of them, before or "
         "after a first read), one random schedule with 2-4 jobs, fresh / rebuild after an edit / restart after a "
